@@ -12,12 +12,12 @@ for id in "${ids[@]}"; do
   if [ -f seeded/$id/patch.diff ]; then p=seeded/$id/patch.diff; else p=mutants/$id.diff; fi
   git -C $WT checkout -q -- . ; git -C $WT apply /verif/$p || { echo "$id: patch does not apply"; continue; }
   case $id in
-    c13-g|c13-an|c13-as|m1_global_memo|m2_racy_origins) eng=M ;;
-    c13-ag|c13-aj|m7_devshm_cache) eng=W ;;
+    c13-g|c13-an|c13-as|c13-aw|m1_global_memo|m2_racy_origins) eng=M ;;
+    c13-ag|c13-aj|c13-au|m7_devshm_cache) eng=W ;;
     c13-am) eng=Ws ;;
     c13-ap) eng=Hs,Ws ;;
     m6_lock_order_inversion) eng=H ;;
-    c13-af) eng=H,Hd,W ;;
+    c13-af|c13-w) eng=H,Hd,W ;;
     c13-j|c13-t|c13-ac|c13-ae) eng=Hs ;;
     *) eng=H,Hd ;;
   esac
